@@ -6,7 +6,7 @@
 #include "OSObject.h"
 #include "osobject.h"
 
-#ifdef VP_NATIVE
+#ifdef VP_NATIVE_DYN
 class VpOSObject : public OSObject
 {
 public:
